@@ -82,7 +82,9 @@ def generate(rng, index, tier):
             if rng.chance(0.3) and len(images) > 1:
                 other = rng.pick(images)
                 inner.append(worlds.op_imap(rng, other['uuid'], other['addr'], shared=rng.chance(0.3)))
-            ops.append({'k': 'sys', 'name': 'DBG_DYLD_TIMING_LAUNCH_EXECUTABLE', 's': [0, rng.randrange(1 << 40), 0, 0],
+            # (the launched executable's own header address is sometimes the address of one of the images in the list)
+            mh_ = rng.pick([x['a'][2] for x in inner if x.get('name', '').startswith('DYLD_uuid')]) if rng.chance(0.3) else rng.randrange(1 << 40)
+            ops.append({'k': 'sys', 'name': 'DBG_DYLD_TIMING_LAUNCH_EXECUTABLE', 's': [0, mh_, 0, 0],
                         'e': [0, 0, 0, 0], 'in': inner})
     if rng.chance(0.2):
         # images unmapped that this capture never saw mapped (unmapping is not an announcement)
@@ -148,6 +150,8 @@ def generate(rng, index, tier):
             for sub in smp['in']:
                 if sub.get('name') == 'PERF_STK_UHdr':
                     sub['a'][2], sub['a'][3] = hdr_tail
+                elif sub.get('name') == 'PERF_STK_UData' and rng.chance(0.08):
+                    sub['q'] = rng.pick([1, 3])       # a stack-data record with a START or ALL qualifier is still that record
             ops.append(smp)
             if rng.chance(0.2):
                 ops.append(worlds.op_single(rng, 'MACH_MKRUNNABLE'))
